@@ -5,6 +5,7 @@ command exit 1, but it is never reported as a VIOLATION of a listed property.
 
 1. join-table lookup (rbql_csv.find_table_path): the id of the query text is tried as a path, then relative to the
    input file's directory, then as a key of ~/.rbql_table_names -- Frontends!ResolveTable, judged by TLC.
+3. rbql-js file front-ends (rbql_csv.query_csv stream / bulk, node cli_rbql.js): the C13 cases in JavaScript syntax against Stringify / CliOk.
 2. user init code (engine): runs once after set_header and before the first get_record; functions it defines are
    visible to every clause; an exception in it is reported as such -- RbqlEngine (q.init, action RunInit).
 """
@@ -92,13 +93,106 @@ def table_lookup(run):
         run.violation({'what': 'join-table lookup differs from ResolveTable', 'case': json.dumps(info[t])}, {'kind': 'lookup', 'case': info[t]})
 
 
+def _js_cli(args, stdin=None):
+    p = subprocess.run(['node', os.path.join(impl.REPO, 'rbql-js', 'cli_rbql.js')] + args, input=stdin, stdout=subprocess.PIPE, stderr=subprocess.PIPE, cwd='/', timeout=120)
+    return p.returncode, p.stdout.decode('utf-8', 'replace'), p.stderr.decode('utf-8', 'replace')
+
+
+def _js_cli_chunk(items):
+    from .c13 import stderr_kinds, parse_text, ERRNAME
+    out = []
+    for tid, qtext, inp, hashdr, want_rows, want_err, joined in items:
+        for mode in ('file', 'pipe'):
+            if mode == 'pipe' and joined:
+                continue
+            args = ['--query', qtext, '--delim', ',', '--policy', 'quoted'] + (['--with-headers'] if hashdr else [])
+            if mode == 'file':
+                o2 = inp + '.cli_out'
+                rc, so, se = _js_cli(args + ['--input', inp, '--output', o2])
+                text = open(o2).read() if os.path.exists(o2) else ''
+                clean = so == ''
+            else:
+                rc, so, se = _js_cli(args, stdin=open(inp, 'rb').read())
+                text, clean = so, True
+            is_table = True if want_err else (clean and parse_text(text) == want_rows)
+            out.append({'tid': '%d.%s' % (tid, mode), 'exit': rc, 'stdout_is_table': bool(is_table), 'stderr_kinds': stderr_kinds(se), 'outcome': 'error' if want_err else 'ok', 'q': qtext,
+                        'stderr': se[:300], 'stdout': text[:300], 'errtype_ok': (not want_err) or ('Error [%s]' % ERRNAME.get(want_err, want_err)) in se, 'want_err': want_err})
+    return out
+
+
+def js_frontends(run, label, queries, recsA, maxA, recsB='R_none', maxB=0, cli_every=11):
+    """rbql-js file front-ends: the C13 cases rendered into JavaScript, through rbql_csv.query_csv (stream and bulk read) and `node cli_rbql.js`
+    (file -> file and stdin -> stdout); results compared with TLC's Stringify rows, command-line runs judged by the CliOk monitor."""
+    from .c13 import csv_text, parse_text, expected_text_rows
+    from .. import node, par
+    d = tlcrun.new_scratch('extjs')
+    cfg = ec.engine_cfg(os.path.join(d, label + '.cfg'), queries, recsA, recsB, maxA, maxB, (False, True), (0,))
+    res = tlcrun.run_tlc('MC_Engine', cfg, timeout=3600)
+    run.add_tlc('MC_Engine:' + label, res)
+    root = tempfile.mkdtemp(prefix='rbqlverif_extjs_')
+    try:
+        reqs, meta, cli_items = [], [], []
+        for tid, case in enumerate(res.cases, 1):
+            exp = case['expect']
+            want_err = exp['err'][0]['cls'] if exp['err'] else None
+            if not exp['textonly'] and not want_err:
+                continue
+            qtext = engine.render_query(case, engine.Spelling(ec.case_key(case) + 'extjs'), 'js')
+            A, B = engine.table_py(case['A']), engine.table_py(case['B'])
+            joined = case['q']['join'] != 'none'
+            hdrA = list(case['hdrA']) if case['hasHdr'] else None
+            hdrB = list(case['hdrB']) if case['hasHdr'] else None
+            cd = os.path.join(root, 'c%d' % tid)
+            os.mkdir(cd)
+            inp = os.path.join(cd, 'in.csv')
+            with open(inp, 'w') as f:
+                f.write(csv_text(A, hdrA))
+            if joined:
+                for name in ('B', 'b'):
+                    with open(os.path.join(cd, name), 'w') as f:
+                        f.write(csv_text(B, hdrB))
+            want_rows = expected_text_rows(case) if not want_err else None
+            for bulk in (False, True):
+                reqs.append({'op': 'query_csv', 'query': qtext, 'input': inp, 'output': os.path.join(cd, 'out%d.csv' % bulk), 'with_headers': bool(case['hasHdr']), 'bulk': bulk})
+                meta.append((tid, case, qtext, want_rows, want_err, bulk))
+            if tid % cli_every == 0:
+                cli_items.append((tid, qtext, inp, bool(case['hasHdr']), want_rows, want_err, joined))
+        resp = node.run_batch(reqs, nproc=par.NPROC)
+        for (tid, case, qtext, want_rows, want_err, bulk), r in zip(meta, resp):
+            run.traces += 1
+            run.count(['extjs', ec.case_key(case), bulk], nontrivial=len(case['A']) >= 2)
+            got_err = engine.JS_ERR.get(r['error']['cls'], r['error']['cls']) if r.get('error') else None
+            base = {'impl': 'js', 'frontend': 'query_csv' + ('-bulk' if bulk else ''), 'query': qtext}
+            if (got_err or None) != (want_err or None):
+                run.violation(dict(base, what='outcome', got=(r.get('error') or {}).get('msg', '')[:160] if got_err else None, want=want_err), {'kind': 'js_frontend', 'case': case})
+            elif got_err is None and parse_text(r['text']) != want_rows:
+                run.violation(dict(base, what='result rows', got=parse_text(r['text']), want=want_rows), {'kind': 'js_frontend', 'case': case})
+        clis = [c for part in par.pmap(_js_cli_chunk, cli_items, chunk=4) for c in ([part] if isinstance(part, dict) else part)]
+    finally:
+        shutil.rmtree(root, ignore_errors=True)
+    if clis:
+        run.traces += len(clis)
+        run.sample({'js_cli_run': {k: clis[len(clis) // 2][k] for k in ('q', 'exit', 'stderr_kinds', 'outcome', 'stdout')}})
+        rej = frontends.validate(run, 'cli', [{k: c[k] for k in ('tid', 'exit', 'stdout_is_table', 'stderr_kinds', 'outcome')} for c in clis], label + '-jscli')
+        for c in clis:
+            if c['tid'] in rej:
+                run.violation({'impl': 'js', 'frontend': 'cli', 'what': 'node cli_rbql.js run rejected by the CliOk monitor', 'exit': c['exit'], 'outcome': c['outcome'], 'stderr': c['stderr'][:160], 'query': c['q']},
+                              {'kind': 'js_cli', 'tid': c['tid']})
+            elif not c['errtype_ok']:
+                run.violation({'impl': 'js', 'frontend': 'cli', 'what': 'error type on stderr', 'got': c['stderr'][:160], 'want': c['want_err'], 'query': c['q']}, {'kind': 'js_cli', 'tid': c['tid']})
+    run.notes.setdefault('js_cli_runs', 0)
+    run.notes['js_cli_runs'] += len(clis)
+
+
 def check(run):
     run.prop = 'EXT'
     run.rule = ('extensions of the specification beyond the listed properties: join-table lookup order (16 existence combinations x relative/absolute id, each in a fresh process with its own HOME and working directory); '
-                'user init code (defining a function used in SELECT / WHERE / ORDER BY / UPDATE, or raising) over small tables')
+                'rbql-js query_csv (stream, bulk) and node cli_rbql.js over the C13 cases; user init code (defining a function used in SELECT / WHERE / ORDER BY / UPDATE, or raising) over small tables')
     run.assumptions = ['not a listed property: mismatches are reported as EXTENSION-MISMATCH']
     table_lookup(run)
     ec.run_family(run, 'EXT-user-init-code', 'Q_EXTinit', 'R_2x2', maxA=2, hdrmodes=(False, True))
+    js_frontends(run, 'EXT-js-frontends', 'Q_C13', 'R_2x2p', 2)
+    js_frontends(run, 'EXT-js-frontends-join', 'Q_C13join', 'R_2x2', 2, recsB='R_2x2', maxB=2, cli_every=40)
     run.exhaustive = True
 
 
